@@ -234,7 +234,7 @@ def decide(prop, mod, results, tier, seed, wall):
                 else:
                     # the contract names a finding that known_findings.json does not list: that is a violation
                     os.makedirs(replays_dir, exist_ok=True)
-                    path_ = os.path.join(replays_dir, f"{o['name'].replace('/', '_')}.{h['id']}.json")
+                    path_ = os.path.join(replays_dir, _fname(f"{o['name']}.{h['id']}"))
                     with open(path_, "w") as fh_:
                         json.dump({"property": prop, "obligation": o["name"], "model": h.get("model"),
                                    "note": f"violates the obligation inside witness {h['id']}, which known_findings.json does not list"}, fh_, indent=1, default=str)
@@ -275,7 +275,7 @@ def decide(prop, mod, results, tier, seed, wall):
                     lines.append(f"KNOWN-FINDING: property={prop} {kf['what']} [{kf['id']}; obligation {o['name']}]")
                     continue
                 os.makedirs(replays_dir, exist_ok=True)
-                path = os.path.join(replays_dir, f"{o['name'].replace('/', '_')}.json")
+                path = os.path.join(replays_dir, _fname(o['name']))
                 srcs = [f for f in r.get("functions", [])]
                 with open(path, "w") as fh:
                     json.dump({"property": prop, "obligation": o["name"], "kind": o.get("kind"), "task": r["task"],
@@ -330,6 +330,16 @@ def decide(prop, mod, results, tier, seed, wall):
           "assumptions": GLOBAL_ASSUMPTIONS + list(getattr(mod, "ASSUMPTIONS", [])),
           "wall_s": round(wall, 2), "violations": len(violations)}
     return ev, lines, exit_code
+
+
+def _fname(name):
+    """replay file name for an obligation: '/' replaced; long names cut with a digest so that they stay unique and below the 255-byte limit"""
+    import hashlib
+    import re
+    n = re.sub(r"[^A-Za-z0-9._\-\[\]=+~,]", "_", name)  # no blanks or quotes: the VIOLATION line is `replay=<path>` followed by optional words
+    if len(n.encode()) > 180:
+        n = n.encode()[:150].decode(errors="ignore") + "~" + hashlib.sha1(name.encode()).hexdigest()[:12]
+    return n + ".json"
 
 
 def _lookup(table, name):
